@@ -10,9 +10,9 @@ open H3.Props.C15 H3.Qpack H3.Qpack.Lemmas
 
 theorem C11_c15_facts : H3.Qpack.Lemmas.C15Facts :=
   ⟨C15_prefix_int_roundtrip, C15_prefix_int_ok_sound, C15_huffman_roundtrip,
-   C15_string_literal_roundtrip, C15_huffman_accepts_exactly_partial⟩
+   C15_string_literal_encode, C15_string_literal_roundtrip, C15_huffman_accepts_exactly_partial⟩
 
-theorem C11_encode_then_rfc_decode_closed (fs : List Field) (hfs : ∀ f ∈ fs, Encodable f) :
+theorem C11_encode_then_rfc_decode_closed (fs : List Field) (hfs : ∀ f ∈ fs, Writable f) :
     encodeStateless? fs = some (encodeStateless fs) ∧
     Spec.Qpack.specDecode (encodeStateless fs).1 = .ok (pairs fs) ∧
     (encodeStateless fs).1.take 2 = [0, 0] ∧
